@@ -200,3 +200,43 @@ Definition selected (prefs : list (query * encoding)) (recs : list enc_rec)
 (* the selection the documented list prescribes, executable (used by the correspondence judge) *)
 Definition spec_find_good (recs : list enc_rec) : option (encoding * enc_rec) :=
   find_good_in spec_preferences recs.
+
+(* ------------------------------------------------------------------------------------------- *)
+(* Format 2 ("High-byte mapping through table"), for the codes the format defines:
+
+   "subHeaderKeys[256]: array that maps high bytes to subHeaders: value is subHeader index x 8."
+   A byte i with subHeaderKeys[i] = 0 is a one-byte code and uses subHeader 0; otherwise i is the
+   first byte of a two-byte code and the second byte is mapped through subHeader subHeaderKeys[i]/8.
+   "firstCode and entryCount specify a subrange [...] Any byte values outside of this subrange are
+    mapped to glyph index 0 (missing glyph).  The offset of the byte within this subrange is then used
+    as index into a corresponding subarray of glyphIdArray.  This subarray is also of length
+    entryCount.  The value of the idRangeOffset is the number of bytes past the actual location of
+    the idRangeOffset word where the glyphIdArray element corresponding to firstCode appears.
+    Finally, if the value obtained from the subarray is not 0 (which indicates the missing glyph),
+    you should add idDelta to it in order to get the glyphIndex.  The idDelta arithmetic is modulo
+    65536."
+
+   [scope] is the byte sequence that starts at subHeader 0 (sub-headers, then glyphIdArray): the
+   idRangeOffset word of subHeader k is at byte 8k+6 of it. *)
+
+Definition word_at (scope : list Z) (off : Z) : option Z :=
+  if (0 <=? off) && (off + 2 <=? len scope) then Some (be_val (take 2 (drop off scope))) else None.
+
+(* sub-header k serves code c with second (or only) byte lo *)
+Definition f2_selects (keys : list Z) (c lo k : Z) : Prop :=
+  lo = c mod 256 /\
+  ((c / 256 = 0 /\ get keys lo = Some 0 /\ k = 0) \/
+   (c / 256 <> 0 /\ get keys (c / 256) = Some (8 * k) /\ k <> 0)).
+
+Inductive f2_assigns (keys : list Z) (headers : list sub_header) (scope : list Z) : Z -> Z -> Prop :=
+| A2_subrange : forall c lo k sh w,
+    0 <= c <= 65535 -> f2_selects keys c lo k -> get headers k = Some sh ->
+    sh_first sh <= lo < sh_first sh + sh_count sh ->
+    (* the whole sub-array of entryCount words lies inside the table *)
+    8 * k + 6 + sh_ro sh + 2 * sh_count sh <= len scope ->
+    word_at scope (8 * k + 6 + sh_ro sh + 2 * (lo - sh_first sh)) = Some w ->
+    f2_assigns keys headers scope c (if w =? 0 then 0 else (w + sh_delta sh) mod 65536)
+| A2_outside : forall c lo k sh,
+    0 <= c <= 65535 -> f2_selects keys c lo k -> get headers k = Some sh ->
+    ~ (sh_first sh <= lo < sh_first sh + sh_count sh) ->
+    f2_assigns keys headers scope c 0.
